@@ -90,4 +90,33 @@ def c29(check):
           "DESIGN.md §4 C29")
 
 
-EXTRA = [c03, c06, c10, c11, c29, c30]
+def c04(check):
+    check("C04", "exploration",
+          "Seeded search with the eigenvector-gauge nondeterminism as the injected fault: for spin-doubled random Hermitian systems "
+          "(exact degeneracies, external-term matrices, random Hermitian spin matrix) a reference evaluation is compared with "
+          "evaluations under the code's own random_gauge perturbation point, whose RNG the simulator seeds and whose random unitaries "
+          "it counts: evaluate_k for the named quantities and run() with AHC/Morb/Spin/DOS/CumDOS/Ohmic/BerryDipole and "
+          "TabulatorAll. The k vs k+G comparison of the same evaluations is a by-product without simulation strength.",
+          "Equality 1e-8 of max(|reference|, same quantity on the non-doubled parent); runs in which no block was rotated do not "
+          "count; degenerate subspaces are twofold (spin doubling).",
+          "deterministic simulation: fault injection at the eigenvector-gauge perturbation point (seeded RNG, counted rotations), "
+          "unperturbed evaluation as reference",
+          "DESIGN.md §4 C04")
+
+
+def c18(check):
+    check("C18", "exploration",
+          "npz-directory part only: seeded histories over a simulated directory - save, save another system into the same "
+          "directory, simulated process kill at a drawn file operation (between files or mid-file with torn-write cut) with or "
+          "without a complete re-save, load - under every listing-order policy for the two directory listings of load_npz. The "
+          "loaded system must give back lattice, centres, R-vectors, periodic, num_wann, point-group operations and every saved "
+          "matrix bit-exactly (band energies at a seeded k as by-product); after a crash without re-save loading may raise but "
+          "may not return differing parts. The _tb.dat/_hr.dat text round trips are sequential single-file formatting and are "
+          "NOT addressed by this check.",
+          "Process-kill model; a second save uses the same file names as the first; text formats not covered.",
+          "deterministic simulation: seeded save/crash/re-save/load histories on a simulated directory with listing-order and "
+          "torn-write faults",
+          "DESIGN.md §4 C18", engine="npzfs")
+
+
+EXTRA = [c03, c04, c06, c10, c11, c18, c29, c30]
